@@ -166,7 +166,7 @@ def check(pid, tier='quick', seed=0):
         blob = json.dumps(f)
         for v in undecided:
             keys = getattr(v, 'confirm', None) or [v.fn.split('.')[-1]]
-            if v.fn and any(k and k in blob for k in keys) and 'may-write' not in str(v.detail) and 'may share' not in str(v.detail):
+            if v.fn and any(k and k in blob for k in keys) and 'may-write' not in str(v.detail) and 'may share' not in str(v.detail) and 'outside the shape domain' not in str(v.detail):
                 lost.append(f'{v.fn}:{v.name}'[:110])
         payload['obligations_without_proof_on_this_tree'] = lost[:10]
         path = write_replay(pid, sig, payload)
